@@ -32,8 +32,66 @@ fn dec(t: &[String]) -> Option<C> {
 fn n_chunks(c: &C) -> usize { if c.chunk <= 1 { c.xs.len() } else { c.xs.len().div_ceil(c.chunk) } }
 fn valid(c: &C) -> bool { c.threads >= 1 && n_chunks(c) <= 700 }
 
-fn ser<T: Serialize>(x: &T) -> Vec<u8> { bincode::DefaultOptions::new().serialize(x).unwrap() }
-fn de<T: DeserializeOwned>(b: &[u8]) -> Option<T> { bincode::DefaultOptions::new().deserialize(b).ok() }
+/// Field-for-field image of a record, written and read by the HARNESS from the record's public fields (not by the library's
+/// `Serialize`, which is what the sort itself uses: a `Serialize` that forgets a field would forget it in the expectation too).
+pub trait Fields: Sized {
+    fn ser_fields(&self) -> Vec<u8>;
+    fn de_fields(b: &[u8]) -> Option<Self>;
+}
+fn ser<T: Fields>(x: &T) -> Vec<u8> { x.ser_fields() }
+fn de<T: Fields>(b: &[u8]) -> Option<T> { T::de_fields(b) }
+fn toks(b: &[u8]) -> Option<Vec<String>> { Some(std::str::from_utf8(b).ok()?.split(' ').map(|s| s.to_string()).collect()) }
+fn put_common(w: &mut W, chrom: &str, start: u64, end: u64, name: &Option<String>, score: &Option<Score>, strand: &Option<Strand>) {
+    w.b(chrom.as_bytes()).n(start).n(end);
+    match name { None => { w.n(0); } Some(s) => { w.n(1).b(s.as_bytes()); } }
+    match score { None => { w.n(0); } Some(s) => { w.n(1).n(u16::from(*s)); } }
+    w.n(match strand { None => 0, Some(Strand::Forward) => 1, Some(Strand::Reverse) => 2 });
+}
+fn get_common(r: &mut R) -> Option<(String, u64, u64, Option<String>, Option<Score>, Option<Strand>)> {
+    let chrom = r.string()?; let start = r.u64()?; let end = r.u64()?;
+    let name = if r.u64()? != 0 { Some(r.string()?) } else { None };
+    let score = if r.u64()? != 0 { Some(Score::try_from(r.u64()? as u16).ok()?) } else { None };
+    let strand = match r.u64()? { 0 => None, 1 => Some(Strand::Forward), _ => Some(Strand::Reverse) };
+    Some((chrom, start, end, name, score, strand))
+}
+fn put_of(w: &mut W, o: Option<f64>) { match o { None => { w.n(0); } Some(x) => { w.n(1).n(x.to_bits()); } } }
+fn get_of(r: &mut R) -> Option<Option<f64>> { Some(if r.u64()? != 0 { Some(f64::from_bits(r.u64()?)) } else { None }) }
+impl Fields for GenomicRange {
+    fn ser_fields(&self) -> Vec<u8> { let mut w = W::new(); w.b(self.chrom().as_bytes()).n(self.start()).n(self.end()); w.join().into_bytes() }
+    fn de_fields(b: &[u8]) -> Option<Self> { let t = toks(b)?; let mut r = R::new(&t); Some(GenomicRange::new(r.string()?, r.u64()?, r.u64()?)) }
+}
+impl<const N: u8> Fields for BED<N> {
+    fn ser_fields(&self) -> Vec<u8> {
+        let mut w = W::new();
+        put_common(&mut w, self.chrom(), self.start(), self.end(), &self.name, &self.score, &self.strand);
+        w.n(self.optional_fields.len());
+        for f in self.optional_fields.iter() { w.b(f.as_bytes()); }
+        w.join().into_bytes()
+    }
+    fn de_fields(b: &[u8]) -> Option<Self> {
+        let t = toks(b)?; let mut r = R::new(&t);
+        let (chrom, start, end, name, score, strand) = get_common(&mut r)?;
+        let of = r.list(|r| r.string())?;
+        Some(BED::new(chrom, start, end, name, score, strand, OptionalFields::from(of)))
+    }
+}
+impl Fields for NarrowPeak {
+    fn ser_fields(&self) -> Vec<u8> {
+        let mut w = W::new();
+        put_common(&mut w, &self.chrom, self.start, self.end, &self.name, &self.score, &self.strand);
+        w.n(self.signal_value.to_bits()); put_of(&mut w, self.p_value); put_of(&mut w, self.q_value); w.n(self.peak);
+        w.join().into_bytes()
+    }
+    fn de_fields(b: &[u8]) -> Option<Self> {
+        let t = toks(b)?; let mut r = R::new(&t);
+        let (chrom, start, end, name, score, strand) = get_common(&mut r)?;
+        Some(NarrowPeak { chrom, start, end, name, score, strand, signal_value: f64::from_bits(r.u64()?), p_value: get_of(&mut r)?, q_value: get_of(&mut r)?, peak: r.u64()? })
+    }
+}
+impl Fields for BedGraph<f64> {
+    fn ser_fields(&self) -> Vec<u8> { let mut w = W::new(); w.b(self.chrom.as_bytes()).n(self.start).n(self.end).n(self.value.to_bits()); w.join().into_bytes() }
+    fn de_fields(b: &[u8]) -> Option<Self> { let t = toks(b)?; let mut r = R::new(&t); Some(BedGraph::new(r.string()?, r.u64()?, r.u64()?, f64::from_bits(r.u64()?))) }
+}
 pub fn rec_key<B: BEDLike>(b: &B) -> Vec<u64> {
     let mut k: Vec<u64> = b.chrom().bytes().map(|x| x as u64 + 1).collect();
     k.push(0); k.push(b.start()); k.push(b.end());
@@ -143,7 +201,7 @@ where T: Serialize + DeserializeOwned + Send + Clone, F: Fn(&T, &T) -> std::cmp:
     }
 }
 
-fn run_real<T: Serialize + DeserializeOwned + Send + BEDLike + Clone>(c: &C) -> Option<String> {
+fn run_real<T: Serialize + DeserializeOwned + Send + BEDLike + Clone + Fields>(c: &C) -> Option<String> {
     let recs: Vec<T> = c.xs.iter().map(|x| de::<T>(&x.1)).collect::<Option<Vec<T>>>()?;
     let (b, dir) = builder(c);
     let sorter = b.build().ok()?;
@@ -188,6 +246,11 @@ fn exec_here(t: &[String]) -> Option<String> {
         }
         "gr" => run_real::<GenomicRange>(&c),
         "bed6" => run_real::<BED<6>>(&c),
+        // BED<N> for small N carrying name / score / strand all the same (`BED::new` and the public fields allow it), BED<12>
+        "bed3" => run_real::<BED<3>>(&c),
+        "bed4" => run_real::<BED<4>>(&c),
+        "bed5" => run_real::<BED<5>>(&c),
+        "bed12" => run_real::<BED<12>>(&c),
         "np" => run_real::<NarrowPeak>(&c),
         "bg" => run_real::<BedGraph<f64>>(&c),
         _ => None,
@@ -214,6 +277,15 @@ fn real_items(rng: &mut Rng, ty: &str, n: usize) -> Vec<SItem> {
         let end = start + rng.below(10);
         match ty {
             "gr" => { let g = GenomicRange::new(chrom, start, end); (rec_key(&g), ser(&g)) }
+            "bed3" | "bed4" | "bed5" | "bed12" => {
+                let x = gen_wf(rng, Ty::Bed(6));
+                let name = if rng.chance(2, 3) { x.name.clone().or(Some("nm".into())) } else { None };
+                let score = if rng.chance(2, 3) { Score::try_from(x.score.unwrap_or(7)).ok() } else { None };
+                let strand = match rng.below(3) { 0 => None, 1 => Some(Strand::Forward), _ => Some(Strand::Reverse) };
+                let of = OptionalFields::from(if rng.chance(1, 2) { vec!["1000".to_string(), "5000".into(), "0".into(), "2".into(), "600,400,".into(), "0,3600,".into()] } else { vec![] });
+                macro_rules! mk { ($n:literal) => {{ let g: BED<$n> = BED::new(chrom, start, end, name, score, strand, of); (rec_key(&g), ser(&g)) }}; }
+                match ty { "bed3" => mk!(3), "bed4" => mk!(4), "bed5" => mk!(5), _ => mk!(12) }
+            }
             "bed6" => {
                 let x = gen_wf(rng, Ty::Bed(6));
                 let g: BED<6> = BED::new(chrom, start, end, x.name.clone(), x.score.map(|s| Score::try_from(s).unwrap()), match x.strand { Some(1) => Some(Strand::Forward), Some(2) => Some(Strand::Reverse), _ => None }, OptionalFields::from(if rng.chance(1, 3) { vec!["opt".to_string(), "x".to_string()] } else { vec![] }));
@@ -299,7 +371,7 @@ fn gen(rng: &mut Rng, tier: Tier) -> Vec<Case> {
     for t in real_file_cases(rng, tier) { if let Some(c) = dec(&t) { push("real-files", c); } }
     let nr = match tier { Tier::Quick => 120, Tier::Thorough => 1500 };
     for _ in 0..nr {
-        let ty = *rng.pick(&["kv", "gr", "bed6", "np", "bg"]);
+        let ty = *rng.pick(&["kv", "gr", "bed6", "np", "bg", "bed3", "bed4", "bed5", "bed12"]);
         let n = rng.range(0, 400) as usize;
         let chunk = match rng.below(4) { 0 => (n / 3).max(2), 1 => n.max(2), 2 => 1000, _ => rng.range(2, 60) as usize };
         let shape = rng.below(6);
